@@ -328,6 +328,11 @@ Ltac xstep lem :=
   | H : nth_error C ?q' = Some _ |- star C (St ?q _ _ _ _) _ =>
       replace q with q' by lia; eapply lem; [exact H | ..]
   end.
+Ltac xfault lem :=
+  match goal with
+  | H : nth_error C ?q' = Some _ |- goes_wrong C (St ?q _ _ _ _) =>
+      replace q with q' by lia; eapply lem; [exact H | ..]
+  end.
 Ltac xthen lem := eapply star_trans; [xstep lem|].
 Ltac xlast lem := eapply star_eq; [xstep lem|].
 
@@ -355,7 +360,7 @@ Qed.
 Lemma sim_expr_step n : sim_all n -> sim_expr (S n).
 Proof.
   intros (IHe & IHl & IHc & _ & _) r e m g q L A s K Hm Hc.
-  destruct e; simpl eval.
+  destruct e as [z|bl|x|e|e|e|op e1 e2|e1 e2|e1 e2|f es]; simpl eval.
   - (* ELit *)
     simpl in Hc. split_code.
     destruct (ret64_cases z) as [[-> Hz]| ->]; [|exact I].
@@ -396,11 +401,10 @@ Proof.
       (destruct (eval n p r e1) as [va| | |]; cbn [bind]; [|exact IHa|exact I|exact I]);
       specialize (IHb va Hc1);
       (destruct (eval n p r e2) as [vb| | |]; cbn [bind]; [|eapply goes_wrong_star; [exact IHa|exact IHb]|exact I|exact I]);
-      (destruct va as [a| |], vb as [b| |]; try exact I); simpl eval_binop;
-      destruct (arith op a b) as [v| | |] eqn:Ea; try exact I.
+      (destruct va as [za| |], vb as [zb| |]; try exact I); simpl eval_binop;
+      destruct (arith op za zb) as [v| | |] eqn:Ea; try exact I.
     + eapply star_trans; [exact IHa|]. eapply star_trans; [exact IHb|]. xlast x_binop; [eauto|pceq].
     + eapply goes_wrong_star; [exact IHa|]. eapply goes_wrong_star; [exact IHb|].
-      replace (q + size_expr false e1 + size_expr false e2) with (q + size_expr false e1 + size_expr false e2) in * by lia.
       eapply x_binop_fault; eauto.
     + intros bb ->. eapply star_trans; [exact IHa|]. eapply star_trans; [exact IHb|].
       xlast x_jmpcmp; [eauto|eauto|]. simpl size_expr. rewrite Ecmp. destruct (Bool.eqb bb cond); pceq.
@@ -450,7 +454,420 @@ Proof.
         intros b0 E; inv E. specialize (IHb b0 eq_refl).
         eapply star_trans; [exact IHa|]. eapply star_eq; [exact IHb|]. destruct (Bool.eqb b0 cond); pceq.
   - (* ECall *)
-    admit.
-Admitted.
+    rewrite compile_expr_call in Hc. split_code.
+    assert (IHL := IHl r es g q L A s K Hm Hc0).
+    destruct (eval_list n p r es) as [vs| | |] eqn:El; cbn [bind]; [|exact IHL|exact I|exact I].
+    pose proof (eval_list_length _ _ _ _ El) as Hlen. rewrite <- Hlen in Hc1, Hi, Hc.
+    assert (IHC := IHc f vs s (Frame (S (q + size_args es + length (emit_reverse (length vs)))) L A :: K)).
+    destruct (call n p f vs) as [v| | |] eqn:Ec; try exact I.
+    + assert (Hle : length vs <= 255) by (eapply call_args_le; left; eauto).
+      destruct IHC as (qr & L' & A' & Hret & Hst).
+      apply jump_tail.
+      * eapply star_trans; [exact IHL|]. eapply star_trans; [apply x_reverse; eauto|].
+        xthen x_call. eapply star_trans; [exact Hst|]. eapply star_eq; [eapply x_ret; exact Hret|].
+        rewrite size_expr_call, <- Hlen. simpl. pceq.
+      * rewrite !size_expr_call. lia.
+      * eapply tail_at; [eauto|rewrite size_expr_call, <- Hlen; simpl; lia].
+    + assert (Hle : length vs <= 255) by (eapply call_args_le; right; eauto).
+      eapply goes_wrong_star; [exact IHL|]. eapply goes_wrong_star; [apply x_reverse; eauto|].
+      eapply goes_wrong_star; [xstep x_call|]. exact IHC.
+Qed.
+
+Lemma sim_list_step n : sim_all n -> sim_list (S n).
+Proof.
+  intros (IHe & IHl & _) r es g q L A s K Hm Hc. simpl eval_list.
+  destruct es as [|e t].
+  - simpl. eapply star_eq; [apply star_refl|pceq].
+  - simpl in Hc. split_code.
+    assert (IHa := IHe r e MVal g q L A s K Hm Hc0).
+    destruct (eval n p r e) as [v| | |]; cbn [bind]; [|exact IHa|exact I|exact I].
+    assert (IHt := IHl r t g _ L A (v :: s) K Hm Hc).
+    destruct (eval_list n p r t) as [vs| | |]; cbn [bind];
+      [|eapply goes_wrong_star; [exact IHa|exact IHt]|exact I|exact I].
+    eapply star_trans; [exact IHa|]. eapply star_eq; [exact IHt|]. simpl. rewrite <- app_assoc. simpl. pceq.
+Qed.
+
+Lemma params_env_slots xs : forall i k, In (SArg k) (map snd (params_env i xs)) -> i <= k.
+Proof.
+  induction xs; simpl; intros i k H; [tauto|]. destruct H as [E|H]; [inv E; lia|]. apply IHxs in H. lia.
+Qed.
+
+Lemma wf_params xs i : wf (params_env i xs) 0.
+Proof.
+  split.
+  - revert i; induction xs; simpl; intros i; constructor; auto.
+    intros H. apply params_env_slots in H. lia.
+  - intros k H. exfalso. revert i H; induction xs; simpl; intros i H; [tauto|].
+    destruct H as [E|H]; [discriminate|eauto].
+Qed.
+
+Lemma menv_params L xs : forall vs A0, length xs = length vs ->
+  menv (combine xs vs) (params_env (length A0) xs) L (A0 ++ vs).
+Proof.
+  induction xs as [|x xs IH]; intros [|v vs] A0 Hl; simpl in *; try discriminate; constructor.
+  - split; auto. simpl. rewrite nth_error_app2 by lia. rewrite Nat.sub_diag. reflexivity.
+  - specialize (IH vs (A0 ++ [v])). rewrite app_length, <- app_assoc in IH. simpl in IH.
+    replace (length A0 + 1) with (S (length A0)) in IH by lia. apply IH. lia.
+Qed.
+
+Lemma sim_call_step n : sim_all n -> sim_call (S n).
+Proof.
+  intros (_ & _ & _ & IHx & _) f vs s K. simpl call.
+  destruct (nth_error p f) as [fn|] eqn:Ef; [|exact I].
+  destruct (Nat.eqb_spec (length (f_params fn)) (length vs)) as [Hlen|]; [|exact I]. simpl andb.
+  destruct (Nat.leb_spec (length vs) 255); [|exact I].
+  pose proof (Hfun f fn Ef) as Hc. unfold compile_func in Hc.
+  apply code_at_app in Hc. destruct Hc as [Hpro Hc]. apply code_at_app in Hc. destruct Hc as [Hbody _].
+  assert (Hpre : star C (St (fe f) [] [] (vs ++ s) K)
+                        (St (fe f + length (prologue fn)) (repeat VNull (ndecl (f_body fn))) vs s K)).
+  { unfold prologue in *. destruct ((ndecl (f_body fn) =? 0) && (length (f_params fn) =? 0)) eqn:E0.
+    - apply andb_true_iff in E0; destruct E0 as [E1 E2]. apply Nat.eqb_eq in E1, E2.
+      rewrite E1. assert (vs = []) by (destruct vs; simpl in *; [auto|lia]). subst vs.
+      simpl. rewrite Nat.add_0_r. apply star_refl.
+    - apply code_at_cons in Hpro. destruct Hpro as [Hi _].
+      eapply star_eq; [apply star_one; unfold step; simpl pc; rewrite Hi; simpl; rewrite E0|].
+      + rewrite Hlen. rewrite app_length. destruct (Nat.leb_spec (length vs) (length vs + length s)); [|lia].
+        reflexivity.
+      + rewrite firstn_app, skipn_app, firstn_all, skipn_all, Nat.sub_diag. simpl. rewrite app_nil_r. pceq. }
+  assert (Hm : menv (combine (f_params fn) vs) (params_env 0 (f_params fn)) (repeat VNull (ndecl (f_body fn))) vs)
+    by (apply (menv_params _ (f_params fn) vs [] Hlen)).
+  assert (IH := IHx _ (f_body fn) _ 0 (fe f + length (prologue fn)) 0 0 _ _ s K Hm (wf_params _ 0)).
+  rewrite repeat_length in IH. specialize (IH (Nat.le_refl _) Hbody).
+  destruct (exec n p (combine (f_params fn) vs) (f_body fn)) as [[o r']| | |]; cbn [bind]; try exact I.
+  - simpl fst. destruct o; try exact I.
+    destruct IH as (ext & L' & A' & _ & _ & _ & _ & qr & Hret & Hst).
+    exists qr, L', A'. split; auto. eapply star_trans; eauto.
+  - eapply goes_wrong_star; eauto.
+Qed.
+
+Lemma stmt_of_block g next st q q0 qn0 brk cont L A s K res :
+  star C (St q L A s K) (St q0 L A s K) ->
+  block_post g qn0 q0 brk cont L A s K res ->
+  (forall L' A', star C (St qn0 L' A' s K) (St (q + size_stmt st) L' A' s K)) ->
+  env_after g next st = g ->
+  stmt_post g next st q brk cont L A s K res.
+Proof.
+  intros Hpre Hb Hk Henv. destruct res as [[o r']| | |]; simpl in *; auto.
+  - destruct Hb as (L' & A' & HL & HA & Hm & Ho). exists [], L', A'.
+    split; [exact HL|]. split; [exact HA|]. split; [exact Hm|]. split; [intros _; symmetry; exact Henv|].
+    destruct o; simpl in *.
+    + eapply star_trans; [exact Hpre|]. eapply star_trans; [exact Ho|apply Hk].
+    + eapply star_trans; eauto.
+    + eapply star_trans; eauto.
+    + destruct Ho as (qr & ? & ?). exists qr; split; auto. eapply star_trans; eauto.
+  - eapply goes_wrong_star; eauto.
+Qed.
+
+(* the five obligations of a successful statement *)
+Ltac ok_post ext L' A' := exists ext, L', A'; split; [|split; [|split; [|split]]].
+
+Ltac ok_same L A Hm :=
+  ok_post (@nil (ident * slot)) L A;
+    [reflexivity | reflexivity | exact Hm | let E := fresh in intros E; first [discriminate E | reflexivity] | simpl].
+
+Lemma sim_exec_step n : sim_all n -> sim_exec (S n).
+Proof.
+  intros (IHe & _ & _ & IHx & IHlp) r st g next q brk cont L A s K Hm Hwf Hle Hc.
+  pose proof (menv_length _ _ _ _ Hm) as Hrg.
+  destruct st as [|a b|x e|x e|x op e|x|x|c a|c a b|i c po b| | |e|a|e]; simpl exec; simpl in Hle.
+  - (* SSkip *)
+    ok_post (@nil (ident * slot)) L A; auto. simpl. eapply star_eq; [apply star_refl|pceq].
+  - (* SSeq *)
+    simpl in Hc. split_code.
+    assert (IHa := IHx r a g next q brk cont L A s K Hm Hwf ltac:(lia) Hc0).
+    destruct (exec n p r a) as [[o1 r1]| | |]; cbn [bind]; [|exact IHa|exact I|exact I].
+    destruct IHa as (ext1 & L1 & A1 & HL1 & HA1 & Hm1 & Henv1 & Ho1). simpl fst; simpl snd.
+    destruct o1.
+    + specialize (Henv1 eq_refl). rewrite Henv1 in Hm1.
+      assert (IHb := IHx r1 b (env_after g next a) (next + ndecl a) (q + size_stmt a) brk cont L1 A1 s K
+                         Hm1 (wf_env_after _ _ _ Hwf) ltac:(lia) Hc).
+      destruct (exec n p r1 b) as [[o2 r2]| | |]; [|eapply goes_wrong_star; [exact Ho1|exact IHb]|exact I|exact I].
+      destruct IHb as (ext2 & L2 & A2 & HL2 & HA2 & Hm2 & Henv2 & Ho2).
+      ok_post (ext2 ++ ext1) L2 A2; try lia.
+      * rewrite <- app_assoc, Henv1. exact Hm2.
+      * intros E. rewrite <- app_assoc, Henv1. simpl. apply Henv2. exact E.
+      * destruct o2; simpl in *.
+        -- eapply star_trans; [exact Ho1|]. eapply star_eq; [exact Ho2|pceq].
+        -- eapply star_trans; eauto.
+        -- eapply star_trans; eauto.
+        -- destruct Ho2 as (qr & ? & ?). exists qr; split; auto. eapply star_trans; eauto.
+    + ok_post ext1 L1 A1; auto. discriminate.
+    + ok_post ext1 L1 A1; auto. discriminate.
+    + ok_post ext1 L1 A1; auto. discriminate.
+  - (* SDecl *)
+    simpl in Hc. split_code.
+    assert (IHa := IHe r e MVal g q L A s K Hm Hc0).
+    destruct (eval n p r e) as [v| | |]; cbn [bind]; [|exact IHa|exact I|exact I].
+    ok_post [(x, SLoc next)] (list_set next v L) A.
+    + apply length_list_set.
+    + reflexivity.
+    + simpl. apply menv_decl; auto. lia.
+    + reflexivity.
+    + simpl. eapply star_trans; [exact IHa|]. xlast x_stloc; [lia|pceq].
+  - (* SAssign *)
+    simpl in Hc. split_code.
+    assert (IHa := IHe r e MVal g q L A s K Hm Hc0).
+    destruct (eval n p r e) as [v| | |]; cbn [bind]; [|exact IHa|exact I|exact I].
+    unfold assign. destruct (update x v r) as [r'|] eqn:Eu; [|exact I].
+    destruct (update_lookup _ _ _ _ Eu) as [w Hw]. destruct (menv_lookup _ _ _ _ _ _ Hm Hw) as (sl & Hsl & Hg).
+    destruct (menv_update _ _ _ _ _ _ _ _ Hm (proj1 Hwf) Eu Hsl) as [Hok Hm'].
+    rewrite (clookup_slot_of _ _ _ Hsl) in *.
+    ok_post (@nil (ident * slot)) (fst (slot_set sl v L A)) (snd (slot_set sl v L A)).
+    + apply length_slot_set.
+    + apply length_slot_set.
+    + exact Hm'.
+    + reflexivity.
+    + simpl. eapply star_trans; [exact IHa|]. xlast x_store; [exact Hok|pceq].
+  - (* SOpAssign *)
+    destruct (is_cmp op) eqn:Ecmp; [exact I|]. destruct (lookup x r) as [vx|] eqn:Elx; [|exact I].
+    destruct (menv_lookup _ _ _ _ _ _ Hm Elx) as (sl & Hsl & Hg).
+    simpl in Hc. rewrite (clookup_slot_of _ _ _ Hsl) in *. split_code.
+    replace (S q) with (q + 1) in Hc0 by lia.
+    assert (IHa := IHe r e MVal g (q + 1) L A (vx :: s) K Hm Hc0).
+    assert (Hld : star C (St q L A s K) (St (q + 1) L A (vx :: s) K))
+      by (eapply star_eq; [eapply x_load; eauto|pceq]).
+    destruct (eval n p r e) as [v| | |]; cbn [bind];
+      [|eapply goes_wrong_star; [exact Hld|exact IHa]|exact I|exact I].
+    destruct vx as [zx| |], v as [z| |]; try exact I. simpl eval_binop.
+    destruct (arith op zx z) as [w| | |] eqn:Ea; cbn [bind]; try exact I.
+    + unfold assign. destruct (update x w r) as [r'|] eqn:Eu; [|exact I].
+      destruct (menv_update _ _ _ _ _ _ _ _ Hm (proj1 Hwf) Eu Hsl) as [Hok Hm'].
+      ok_post (@nil (ident * slot)) (fst (slot_set sl w L A)) (snd (slot_set sl w L A)).
+      * apply length_slot_set.
+      * apply length_slot_set.
+      * exact Hm'.
+      * reflexivity.
+      * simpl. eapply star_trans; [exact Hld|]. eapply star_trans; [exact IHa|].
+        xthen x_binop; [eauto|]. xlast x_store; [exact Hok|pceq].
+    + eapply goes_wrong_star; [exact Hld|]. eapply goes_wrong_star; [exact IHa|].
+      xfault x_binop_fault; eauto.
+  - (* SInc *)
+    destruct (lookup x r) as [[z| |]|] eqn:Elx; try exact I.
+    destruct (ret64_cases (z + 1)%Z) as [[-> Hz]| ->]; [|exact I]. cbn [bind].
+    unfold assign. destruct (update x (VInt (z + 1)) r) as [r'|] eqn:Eu; [|exact I].
+    destruct (menv_lookup _ _ _ _ _ _ Hm Elx) as (sl & Hsl & Hg).
+    destruct (menv_update _ _ _ _ _ _ _ _ Hm (proj1 Hwf) Eu Hsl) as [Hok Hm'].
+    simpl in Hc. rewrite (clookup_slot_of _ _ _ Hsl) in *. split_code.
+    ok_post (@nil (ident * slot)) (fst (slot_set sl (VInt (z + 1)) L A)) (snd (slot_set sl (VInt (z + 1)) L A)).
+    + apply length_slot_set.
+    + apply length_slot_set.
+    + exact Hm'.
+    + reflexivity.
+    + simpl. xthen x_load; [eauto|]. xthen x_inc; [eauto|]. xlast x_store; [exact Hok|pceq].
+  - (* SDec *)
+    destruct (lookup x r) as [[z| |]|] eqn:Elx; try exact I.
+    destruct (ret64_cases (z - 1)%Z) as [[-> Hz]| ->]; [|exact I]. cbn [bind].
+    unfold assign. destruct (update x (VInt (z - 1)) r) as [r'|] eqn:Eu; [|exact I].
+    destruct (menv_lookup _ _ _ _ _ _ Hm Elx) as (sl & Hsl & Hg).
+    destruct (menv_update _ _ _ _ _ _ _ _ Hm (proj1 Hwf) Eu Hsl) as [Hok Hm'].
+    simpl in Hc. rewrite (clookup_slot_of _ _ _ Hsl) in *. split_code.
+    ok_post (@nil (ident * slot)) (fst (slot_set sl (VInt (z - 1)) L A)) (snd (slot_set sl (VInt (z - 1)) L A)).
+    + apply length_slot_set.
+    + apply length_slot_set.
+    + exact Hm'.
+    + reflexivity.
+    + simpl. xthen x_load; [eauto|]. xthen x_dec; [eauto|]. xlast x_store; [exact Hok|pceq].
+  - (* SIf *)
+    simpl in Hc. split_code.
+    assert (IHc := IHe r c _ g q L A s K Hm Hc0).
+    destruct (eval n p r c) as [v| | |]; cbn [bind]; [|exact IHc|exact I|exact I].
+    destruct v as [|bc|]; try exact I. specialize (IHc bc eq_refl). destruct bc; simpl in IHc.
+    + assert (IHa := IHx r a g next (q + size_expr true c) brk cont L A s K Hm Hwf ltac:(lia) Hc).
+      apply block_of_stmt with (k := length r) in IHa; [|exact Hrg].
+      eapply stmt_of_block; [exact IHc|exact IHa| |reflexivity].
+      intros L' A'. eapply star_eq; [apply star_refl|pceq].
+    + ok_post (@nil (ident * slot)) L A; auto. simpl. eapply star_eq; [exact IHc|pceq].
+  - (* SIfElse *)
+    simpl in Hc. split_code.
+    assert (IHc := IHe r c _ g q L A s K Hm Hc0).
+    destruct (eval n p r c) as [v| | |]; cbn [bind]; [|exact IHc|exact I|exact I].
+    destruct v as [|bc|]; try exact I. specialize (IHc bc eq_refl). destruct bc; simpl in IHc.
+    + assert (IHa := IHx r a g next (q + size_expr true c) brk cont L A s K Hm Hwf ltac:(lia) Hc1).
+      apply block_of_stmt with (k := length r) in IHa; [|exact Hrg].
+      eapply stmt_of_block; [exact IHc|exact IHa| |reflexivity].
+      intros L' A'. xlast x_jmp. pceq.
+    + replace (S (q + size_expr true c + size_stmt a)) with (q + size_expr true c + size_stmt a + 1) in Hc by lia.
+      assert (IHb := IHx r b g (next + ndecl a) (q + size_expr true c + size_stmt a + 1) brk cont L A s K Hm
+                         (wf_mono g next (next + ndecl a) Hwf ltac:(lia)) ltac:(lia) Hc).
+      apply block_of_stmt with (k := length r) in IHb; [|exact Hrg].
+      eapply stmt_of_block; [exact IHc|exact IHb| |reflexivity].
+      intros L' A'. eapply star_eq; [apply star_refl|pceq].
+  - (* SFor *)
+    simpl in Hc. apply code_at_app in Hc. destruct Hc as [Hci Hloop]. rewrite length_compile_stmt in Hloop.
+    assert (IHi := IHx r i g next q brk cont L A s K Hm Hwf ltac:(lia) Hci).
+    destruct (exec n p r i) as [[oi r1]| | |]; cbn [bind]; [|exact IHi|exact I|exact I].
+    destruct IHi as (ext1 & L1 & A1 & HL1 & HA1 & Hm1 & Henv1 & Ho1). simpl fst; simpl snd.
+    destruct oi; try exact I. specialize (Henv1 eq_refl). rewrite Henv1 in Hm1. simpl in Ho1.
+    assert (IHL := IHlp r1 c po b (env_after g next i) (next + ndecl i) (q + size_stmt i) L1 A1 s K
+                        Hm1 (wf_env_after _ _ _ Hwf) ltac:(lia) Hloop).
+    destruct (loop n p r1 c po b) as [[o2 r2]| | |]; cbn [bind];
+      [|eapply goes_wrong_star; [exact Ho1|exact IHL]|exact I|exact I].
+    destruct IHL as (L2 & A2 & HL2 & HA2 & Hm2 & Ho2). simpl fst; simpl snd.
+    ok_post (@nil (ident * slot)) L2 A2; try lia.
+    + rewrite <- Henv1 in Hm2. simpl. eapply menv_truncate; eauto.
+    + reflexivity.
+    + destruct o2; simpl; try contradiction.
+      * eapply star_trans; [exact Ho1|]. eapply star_eq; [exact Ho2|pceq].
+      * destruct Ho2 as (qr & ? & ?). exists qr; split; auto. eapply star_trans; eauto.
+  - (* SBreak *)
+    simpl in Hc. split_code. ok_same L A Hm. eapply x_jmp; eauto.
+  - (* SContinue *)
+    simpl in Hc. split_code. ok_same L A Hm. eapply x_jmp; eauto.
+  - (* SReturn *)
+    simpl in Hc. split_code.
+    assert (IHa := IHe r e MVal g q L A s K Hm Hc0).
+    destruct (eval n p r e) as [v| | |]; cbn [bind]; [|exact IHa|exact I|exact I].
+    ok_same L A Hm. eauto.
+  - (* SBlock *)
+    simpl in Hc.
+    assert (IHa := IHx r a g next q brk cont L A s K Hm Hwf ltac:(lia) Hc).
+    apply block_of_stmt with (k := length r) in IHa; [|exact Hrg].
+    eapply stmt_of_block; [apply star_refl|exact IHa| |reflexivity].
+    intros L' A'. apply star_refl.
+  - (* SExpr *)
+    simpl in Hc. split_code.
+    assert (IHa := IHe r e MVal g q L A s K Hm Hc0).
+    destruct (eval n p r e) as [v| | |]; cbn [bind]; [|exact IHa|exact I|exact I].
+    ok_same L A Hm. eapply star_trans; [exact IHa|]. xlast x_drop. pceq.
+Qed.
+
+Lemma sim_loop_step n : sim_all n -> sim_loop (S n).
+Proof.
+  intros (IHe & _ & _ & IHx & IHlp) r c po b g next start L A s K Hm Hwf Hle Hcode.
+  pose proof (menv_length _ _ _ _ Hm) as Hrg.
+  pose proof Hcode as Hc. unfold loop_code in Hc. cbv zeta in Hc. split_code.
+  replace (S (start + size_expr false c)) with (start + size_expr false c + 1) in * by lia.
+  simpl loop.
+  assert (IHc := IHe r c MVal g start L A s K Hm Hc0).
+  destruct (eval n p r c) as [v| | |]; cbn [bind]; [|exact IHc|exact I|exact I].
+  destruct v as [|bc|]; try exact I. destruct bc.
+  - (* condition true *)
+    assert (Hcond : star C (St start L A s K) (St (start + size_expr false c + 1) L A s K)).
+    { eapply star_trans; [exact IHc|]. eapply star_eq; [eapply x_jmpifnot; eauto|]. pceq. }
+    assert (IHb := IHx r b g next _ _ _ L A s K Hm Hwf ltac:(lia) Hc1).
+    apply block_of_stmt with (k := length r) in IHb; [|exact Hrg].
+    destruct (exec n p r b) as [[ob rb]| | |]; cbn [bind] in *;
+      [|eapply goes_wrong_star; [exact Hcond|exact IHb]|exact I|exact I].
+    destruct IHb as (L1 & A1 & HL1 & HA1 & Hm1 & Ho1). simpl fst in *; simpl snd in *.
+    assert (Hcont : star C (St start L A s K) (St (start + size_expr false c + 1 + size_stmt b) L1 A1 s K) ->
+      match bind (exec n p (truncate (length r) rb) po)
+              (fun or2 => match fst or2 with
+                          | ONormal => loop n p (truncate (length r) (snd or2)) c po b
+                          | _ => Undef end) with
+      | Ok (o, r') =>
+          exists L' A', length L' = length L /\ length A' = length A /\ menv r' g L' A' /\
+            match o with
+            | ONormal => star C (St start L A s K)
+                           (St (start + size_expr false c + 1 + size_stmt b + size_stmt po + 1) L' A' s K)
+            | OReturn v => exists qr, nth_error C qr = Some IRet /\ star C (St start L A s K) (St qr L' A' (v :: s) K)
+            | _ => False
+            end
+      | Fault => goes_wrong C (St start L A s K)
+      | _ => True
+      end).
+    { intros Hat.
+      assert (IHp := IHx (truncate (length r) rb) po g (next + ndecl b) _ (start + size_expr false c + 1 + size_stmt b + size_stmt po + 1)
+                         (start + size_expr false c + 1 + size_stmt b) L1 A1 s K Hm1
+                         (wf_mono g next (next + ndecl b) Hwf ltac:(lia)) ltac:(lia) Hc2).
+      apply block_of_stmt with (k := length r) in IHp; [|exact Hrg].
+      destruct (exec n p (truncate (length r) rb) po) as [[op rp]| | |]; cbn [bind] in *;
+        [|eapply goes_wrong_star; [exact Hat|exact IHp]|exact I|exact I].
+      destruct IHp as (L2 & A2 & HL2 & HA2 & Hm2 & Ho2). simpl fst in *; simpl snd in *.
+      destruct op; try exact I. simpl in Ho2.
+      assert (Hback : star C (St start L A s K) (St start L2 A2 s K)).
+      { eapply star_trans; [exact Hat|]. eapply star_trans; [exact Ho2|]. xstep x_jmp. }
+      assert (IHL := IHlp (truncate (length r) rp) c po b g next start L2 A2 s K Hm2 Hwf ltac:(lia) Hcode).
+      destruct (loop n p (truncate (length r) rp) c po b) as [[o3 r3]| | |];
+        [|eapply goes_wrong_star; [exact Hback|exact IHL]|exact I|exact I].
+      destruct IHL as (L3 & A3 & HL3 & HA3 & Hm3 & Ho3).
+      exists L3, A3. split; [lia|]. split; [lia|]. split; [exact Hm3|].
+      destruct o3; try contradiction.
+      - eapply star_trans; [exact Hback|exact Ho3].
+      - destruct Ho3 as (qr & ? & ?). exists qr; split; auto. eapply star_trans; eauto. }
+    destruct ob; simpl in Ho1.
+    + apply Hcont. eapply star_trans; [exact Hcond|exact Ho1].
+    + exists L1, A1. split; [exact HL1|]. split; [exact HA1|]. split; [exact Hm1|].
+      eapply star_trans; [exact Hcond|exact Ho1].
+    + apply Hcont. eapply star_trans; [exact Hcond|exact Ho1].
+    + exists L1, A1. split; [exact HL1|]. split; [exact HA1|]. split; [exact Hm1|].
+      destruct Ho1 as (qr & ? & ?). exists qr; split; auto. eapply star_trans; eauto.
+  - (* condition false *)
+    exists L, A. split; [reflexivity|]. split; [reflexivity|]. split; [exact Hm|].
+    eapply star_trans; [exact IHc|]. eapply star_eq; [eapply x_jmpifnot; eauto|]. pceq.
+Qed.
+
+Lemma sim_all_n n : sim_all n.
+Proof.
+  induction n; [apply sim_all_0|].
+  repeat split; [apply sim_expr_step|apply sim_list_step|apply sim_call_step|apply sim_exec_step|apply sim_loop_step]; exact IHn.
+Qed.
 
 End Sim.
+
+(* ---------- layout of the compiled program ---------- *)
+Lemma length_compile_func fe base f : length (compile_func fe base f) = size_func f.
+Proof. unfold compile_func, size_func. rewrite !app_length, length_compile_stmt. lia. Qed.
+
+Lemma code_at_funcs fe : forall p base Cpre f fn, length Cpre = base -> nth_error p f = Some fn ->
+  code_at (Cpre ++ compile_funcs fe base p) (nth f (entries base p) 0)
+          (compile_func fe (nth f (entries base p) 0) fn).
+Proof.
+  induction p as [|f0 t IH]; intros base Cpre f fn Hl Hn; [destruct f; discriminate|].
+  destruct f as [|f']; simpl in *.
+  - inv Hn. apply code_at_self_app.
+  - specialize (IH (base + size_func f0) (Cpre ++ compile_func fe base f0) f' fn).
+    rewrite <- app_assoc in IH. apply IH; auto. rewrite app_length, length_compile_func. lia.
+Qed.
+
+Lemma program_layout p f fn : nth_error p f = Some fn ->
+  code_at (compile_program p) (entry p f) (compile_func (entry p) (entry p f) fn).
+Proof. intros H. apply (code_at_funcs (entry p) p 0 [] f fn eq_refl H). Qed.
+
+(* ---------- the theorem ---------- *)
+Theorem compile_correct p f vs n :
+  match run_src n p f vs with
+  | Ok v => exists m, run_tgt (compile_program p) m (entry p f) vs = THalt [v]
+  | Fault => exists m, run_tgt (compile_program p) m (entry p f) vs = TFault
+  | _ => True
+  end.
+Proof.
+  pose proof (sim_all_n p (compile_program p) (entry p) (program_layout p) n) as (_ & _ & Hc & _ & _).
+  specialize (Hc f vs [] []). rewrite app_nil_r in Hc. unfold run_src, run_tgt, init_state.
+  destruct (call n p f vs) as [v| | |]; auto.
+  - destruct Hc as (qr & L & A & Hret & Hst). eapply star_run_halt; [exact Hst|].
+    unfold step. simpl. rewrite Hret. reflexivity.
+  - apply goes_wrong_run. exact Hc.
+Qed.
+
+Lemma run_det C s m1 m2 r1 r2 :
+  run C m1 s = r1 -> r1 <> TTimeout -> run C m2 s = r2 -> r2 <> TTimeout -> r1 = r2.
+Proof.
+  intros H1 N1 H2 N2.
+  rewrite <- (run_mono C m1 s r1 H1 N1 (max m1 m2)) by lia.
+  rewrite <- (run_mono C m2 s r2 H2 N2 (max m1 m2)) by lia. reflexivity.
+Qed.
+
+(* whenever the source run is defined (a value or a division by zero), every run of the compiled code
+   that is given enough steps ends the same way: it halts with exactly that value, or it faults *)
+Theorem compile_correct_any_fuel p f vs n m t :
+  run_tgt (compile_program p) m (entry p f) vs = t -> t <> TTimeout ->
+  match run_src n p f vs with
+  | Ok v => t = THalt [v]
+  | Fault => t = TFault
+  | _ => True
+  end.
+Proof.
+  intros Ht Hn. pose proof (compile_correct p f vs n) as H.
+  destruct (run_src n p f vs) as [v| | |]; auto; destruct H as [m0 H0]; unfold run_tgt in *.
+  - apply (run_det _ _ m m0 t (THalt [v]) Ht Hn H0). discriminate.
+  - apply (run_det _ _ m m0 t TFault Ht Hn H0). discriminate.
+Qed.
+
+Theorem compile_fault_iff p f vs n m t :
+  (run_src n p f vs = Fault \/ exists v, run_src n p f vs = Ok v) ->
+  run_tgt (compile_program p) m (entry p f) vs = t -> t <> TTimeout ->
+  (t = TFault <-> run_src n p f vs = Fault).
+Proof.
+  intros Hs Ht Hn. pose proof (compile_correct_any_fuel p f vs n m t Ht Hn) as H.
+  destruct Hs as [E|[v E]]; rewrite E in *; split; intros H1; auto; congruence.
+Qed.
